@@ -232,7 +232,10 @@ func (r *grammarOptimizer) optimizeRules(exprs []Expression) []Expression {
 func (r *grammarOptimizer) optimizeRule(expr Expression) Expression {
 	// Optimize RuleRefExpr
 	if ruleRef, ok := expr.(*RuleRefExpr); ok {
-		if _, ok := r.ruleUsesRules[ruleRef.Name.Val]; !ok {
+		_, defined := r.rules[ruleRef.Name.Val]
+		// A reference to an undefined rule is left alone: like the unoptimized
+		// parser, the generated parser reports it when it is reached.
+		if _, ok := r.ruleUsesRules[ruleRef.Name.Val]; !ok && defined {
 			r.optimized = true
 			delete(r.ruleUsedByRules[ruleRef.Name.Val], r.rule)
 			if len(r.ruleUsedByRules[ruleRef.Name.Val]) == 0 {
@@ -242,7 +245,6 @@ func (r *grammarOptimizer) optimizeRule(expr Expression) Expression {
 			if len(r.ruleUsesRules[r.rule]) == 0 {
 				delete(r.ruleUsesRules, r.rule)
 			}
-			// TODO: Check if reference exists, otherwise raise an error, which reference is missing!
 			return cloneExpr(r.rules[ruleRef.Name.Val].Expr)
 		}
 	}
